@@ -71,6 +71,24 @@ def _member(t: Term, env: Dict[Term, Tuple[str, bool]]) -> Tuple[str, bool]:
     raise Unknown(f"set expression {T.show(t)} not understood")
 
 
+def _inline_methods(ctx: Ctx, t: Any, me: Term, depth: int = 3) -> Any:
+    """`self.<method>(args)` -> the method's folded return value with its parameters substituted
+    (an operator that delegates to a sibling computes what the sibling computes)."""
+    if not isinstance(t, tuple):
+        return t
+    t = tuple(_inline_methods(ctx, x, me, depth) for x in t)
+    if depth > 0 and T.is_term(t) and t[0] == "call" and t[1][0] == "attr" and t[1][1] == me and not t[3]:
+        qn = f"{OUTSET}.{t[1][2]}"
+        fi = ctx.prog.functions.get(qn)
+        if fi is not None and not fi.is_async and len(fi.params) == len(t[2]) + 1:
+            rv = folded_return(ctx.summ(qn))
+            if rv is not None:
+                mapping = {T.var(fi.params[0]): me}
+                mapping.update({T.var(p): a for p, a in zip(fi.params[1:], t[2])})
+                return _inline_methods(ctx, T.replace(T.strip(rv), mapping), me, depth - 1)
+    return t
+
+
 def _operators(ctx: Ctx, c: Collector) -> None:
     ci = ctx.prog.cls(OUTSET)
     specs = {
@@ -117,7 +135,7 @@ def _operators(ctx: Ctx, c: Collector) -> None:
                         env[other] = ("fin", om)
                         other_has = om
                     env[me] = ("cofin", self_has)
-                    kind, got = _member(boolfn.resolve_phi(r.term, {isinst: other_is_outset}), env)
+                    kind, got = _member(boolfn.resolve_phi(_inline_methods(ctx, r.term, me), {isinst: other_is_outset}), env)
                     want = meaning(self_has, other_has)
                     want_kind = {"__sub__": "cofin" if not other_is_outset else "fin", "__rsub__": "fin", "__and__": "cofin" if other_is_outset else "fin",
                                  "__rand__": "fin", "__or__": "cofin", "__ror__": "cofin"}[name]
@@ -370,6 +388,17 @@ def _parse_attrs(ctx: Ctx, c: Collector) -> None:
             return aeval(t[2][1], combo) if len(t[2]) > 1 else "None"
         if t[0] in ("phi", "ifexp"):
             return aeval(t[2], combo) if ceval(t[1], combo) else aeval(t[3], combo)
+        if t[0] == "or" and len(t[1]) == 2:
+            # value-level `a or b`: b replaces a falsy a (None, an empty collection)
+            left = aeval(t[1][0], combo)
+            if left in ("None", "EMPTY"):
+                return aeval(t[1][1], combo)
+            if left == "ALL":
+                return left
+            right = aeval(t[1][1], combo)
+            if right == "EMPTY":
+                return left            # an empty declared list and the empty default are the same set
+            return f"{left} unless it is empty, then {right}"
         if t[0] == "var" and t[1] not in fi.params:
             raise Definite(f"for a {ty} simulator (any_inputs={anyin}, keys {sorted(present)}) the local `{t[1]}` is used but not assigned on that path")
         raise Unknown(f"value {T.show(t)[:80]} not understood")
